@@ -159,7 +159,7 @@ def cases(rng, tier):
 		yield ('plain', rng.choice(('utf8', 'latin1', 'ascii')), t)
 		yield ('plaindec', rng.choice(('utf8', 'latin1', 'ascii')), (rng.choice((b'', b'', b'\xef\xbb\xbf', b'\xff\xfe', b'\xef\xbb')) + bytes(rng.choice((0x41, 0x80, 0xc3, 0xa9, 0xe2, 0x82, 0xac, 0xf0, 0x9f, 0xff, 0xed, 0xa0)) for _ in range(rng.randrange(6)))))
 	for _ in range(n):
-		yield ('json', rng.choice((None, 'UTF-8', 'ISO-8859-1', 'ASCII', 'UTF-16')), json.dumps(jvalue(rng)))
+		yield ('json', rng.choice((None, 'UTF-8', 'ISO-8859-1', 'ASCII', 'UTF-16', 'UTF-32', 'utf-7', 'cp500', 'utf-16-le', 'cp1252')), json.dumps(jvalue(rng)))
 	for pairs in FORMS:
 		yield ('form', 'utf-8', pairs)
 		yield ('form', 'iso8859-1', pairs)
@@ -495,6 +495,8 @@ def oracle(case):
 		from httoop.messages.body import Body
 		_, cs, pairs = case
 		mt = 'application/x-www-form-urlencoded; charset=%s' % cs
+		if len(pairs) % 3 == 2:
+			mt = mt.replace('application/x-www-form-urlencoded', 'Application/X-WWW-Form-UrlEncoded')
 		if cs == 'utf-8' and len(pairs) % 2:
 			mt = 'application/x-www-form-urlencoded'      # no charset parameter: the body's default (UTF-8) on both sides
 		try:
@@ -514,9 +516,10 @@ def oracle(case):
 		v = json.loads(text)
 		try:
 			back = JSON.decode(JSON.encode(v, cs), cs)
-			b = Body(mimetype='application/json' + ('; charset=%s' % cs if cs else ''))
+			mtj = ('application/json', 'Application/JSON', 'APPLICATION/json')[len(text) % 3] + ('; charset=%s' % cs if cs else '')      # media types are case-insensitive
+			b = Body(mimetype=mtj)
 			b.encode(v)
-			back2 = Body(mimetype='application/json' + ('; charset=%s' % cs if cs else '')).decode(bytes(b))
+			back2 = Body(mimetype=mtj).decode(bytes(b))
 		except Exception as e:
 			return {'what': 'JSON round trip (charset %s) raised %s: %s' % (cs, exc_name(e), e), 'case': describe(case), 'finding': None}
 		if back != v or back2 != v:
